@@ -80,6 +80,7 @@ func isFalseConst(v ssa.Value) bool {
 }
 
 func c01(c *Ctx) {
+	quotaAssignByState(c)
 	c.R.Rule("EXCLUSIVE: ReservePod / UnreservePod test the pod's assigned flag and update used under one mutex held in write mode, not released in between (the pod informer handlers change the same state under its read mode)")
 	exclusiveCheckAct(c, c.Fn(quotaCorePkg, "GroupQuotaManager", "ReservePod"), "CheckPodIsAssigned", "updatePodUsedNoLock", "used keeps the request of a pod that was deleted in between, in the group and every ancestor")
 	exclusiveCheckAct(c, c.Fn(quotaCorePkg, "GroupQuotaManager", "UnreservePod"), "CheckPodIsAssigned", "updatePodUsedNoLock", "the request of a pod deleted in between is subtracted twice, in the group and every ancestor")
